@@ -235,9 +235,10 @@ class History:
 
 
 COMPARED = ("load", "load_fo", "dis", "cli", "opc", "opmod", "std", "mdumps", "mloads", "rewrite", "lineoffs",
-            "info")
+            "info", "stdv", "stdheld")
 FAULT_OPS = ("dis_abort", "load_abort")
-SLOT_OPS = ("load", "load_fo", "dis", "cli", "std", "dis_abort", "load_abort", "rewrite", "lineoffs", "info")
+SLOT_OPS = ("load", "load_fo", "dis", "cli", "std", "dis_abort", "load_abort", "rewrite", "lineoffs", "info",
+            "stdhold", "stdheld")
 
 
 def plan_chain(i, seed, rng):
@@ -304,6 +305,7 @@ def plan_history(i):
     length = rng.between(2, W["max_len"]) if rng.chance(3, 4) else rng.between(2, 5)
     bases = W["bases"]
     slots = {}  # slot -> dict(sha, name, small, loadable, faulted)
+    handles = {}  # API objects kept alive across operations: handle -> (slot, sha, name) they were made for
     ops = []
 
     def install(slot, want_small):
@@ -352,7 +354,8 @@ def plan_history(i):
         ops.append(["install", slot, sha, name])
 
     kinds_all = [("load", 10), ("load_fo", 3), ("dis", 14), ("opc", 5), ("opmod", 3), ("std", 5), ("mdumps", 3),
-                 ("mloads", 3), ("import", 3), ("install", 8), ("rewrite", 3), ("lineoffs", 2), ("info", 2)]
+                 ("mloads", 3), ("import", 3), ("install", 8), ("rewrite", 3), ("lineoffs", 2), ("info", 2), ("stdv", 3),
+                 ("stdhold", 4), ("stdheld", 7)]
     if W["have_click"]:
         kinds_all.append(("cli", 3))
     if h.faulty:
@@ -365,8 +368,18 @@ def plan_history(i):
         if kind == "install":
             install(rng.below(nslots), rng.chance(2, 3))
             continue
-        if kind in ("load", "load_fo", "dis", "cli", "std", "dis_abort", "load_abort", "rewrite", "lineoffs", "info"):
-            need_small = kind in ("dis", "cli", "std", "dis_abort", "rewrite", "lineoffs", "info")
+        if kind == "stdheld":
+            live = [hd for hd in sorted(handles) if slots.get(handles[hd][0], {}).get("sha") == handles[hd][1]]
+            if not live:
+                kind = "stdhold"
+            else:
+                hd = rng.choice(live)
+                s_, sha_, name_ = handles[hd]
+                ops.append(["stdheld", s_, sha_, name_, hd])
+                continue
+        if kind in ("load", "load_fo", "dis", "cli", "std", "dis_abort", "load_abort", "rewrite", "lineoffs", "info",
+                    "stdhold"):
+            need_small = kind in ("dis", "cli", "std", "dis_abort", "rewrite", "lineoffs", "info", "stdhold")
             cands = [s for s in sorted(slots) if (slots[s]["small"] or slots[s]["faulted"] or not need_small)]
             if not cands:
                 install(rng.below(nslots), True)
@@ -385,6 +398,10 @@ def plan_history(i):
                 ops.append(["std", s, st["sha"], st["name"]])
             elif kind in ("rewrite", "lineoffs", "info"):
                 ops.append([kind, s, st["sha"], st["name"]])
+            elif kind == "stdhold":
+                hd = rng.below(3)
+                handles[hd] = (s, st["sha"], st["name"])
+                ops.append(["stdhold", s, st["sha"], st["name"], hd])
             elif kind == "dis_abort":
                 # small listings make 6-20 writes: the header takes the first 3-5, then two per code object;
                 # most faults should land after something has been registered and before the end
@@ -416,6 +433,17 @@ def plan_history(i):
                         _install_exact(s2, rng.choice(same_magic))
                         st2 = slots[s2]
                         ops.append(["load", s2, st2["sha"], st2["name"], True, False])
+        elif kind == "stdv":
+            # an API object for a version given as a tuple, incl. patch levels the tables do not list
+            v = rng.choice(W["versions"])
+            pypy = v.endswith("pypy")
+            import re as _re
+
+            m_ = _re.match(r"(\d+)\.(\d+)", v)
+            parts = [int(m_.group(1)), int(m_.group(2))] if m_ else [3, 8]
+            if rng.chance(1, 2):
+                parts.append(rng.choice([0, 1, 7, 11, 17, 23, 99]))
+            ops.append(["stdv", ".".join(str(x) for x in parts), "pypy" if pypy else None])
         elif kind == "opc":
             if rng.chance(1, 10):
                 ops.append(["opc", rng.choice(["3.14", "2.8", "0.9", "3.8"]), True if rng.chance(1, 2) else False])
@@ -566,6 +594,16 @@ def _vt(s):
     return tuple(int(x) for x in s.split("."))
 
 
+HELD = {}
+
+
+def _api_fingerprint(api):
+    return {"opc": _mod_fingerprint(api.opc), "version": canon._canon_table_value(api.python_version_tuple),
+            "tables": canon.digest([canon._canon_table_value(api.opmap), canon._canon_table_value(api.opname),
+                                    canon._canon_table_value(api.hasconst), canon._canon_table_value(api.hasname),
+                                    api.EXTENDED_ARG, api.HAVE_ARGUMENT])}
+
+
 def _mod_fingerprint(mod):
     return [getattr(mod, "__name__", "?"), canon.digest(canon.module_state(mod))]
 
@@ -680,6 +718,33 @@ def _do_op(op, detail):
                 os.unlink(tmp)
             except OSError:
                 pass
+    elif kind == "stdv":
+        from xdis.std import make_std_api
+
+        api = make_std_api(_vt(op[1]), op[2])
+        res["ret"] = ["stdv", _api_fingerprint(api)]
+    elif kind == "stdhold":
+        from xdis.load import load_module
+        from xdis.std import make_std_api
+
+        version, ts, magic_int, co, is_pypy, size, sip = load_module(op[3])
+        HELD[op[4]] = make_std_api(tuple(version[:2]), "pypy" if is_pypy else None)
+        res["ret"] = ["held"]
+    elif kind == "stdheld":
+        from xdis.load import load_module
+
+        api = HELD.get(op[4])
+        if api is None:
+            raise core.HarnessError("stdheld without stdhold (plan bug)")
+        version, ts, magic_int, co, is_pypy, size, sip = load_module(op[3])
+        ver = tuple(version[:2])
+        ins = [[canon.canon_value(f, ver) for f in (x.offset, x.opcode, x.opname, x.arg, x.argval, x.argrepr,
+                                                    x.is_jump_target, x.starts_line)]
+               for x in api.get_instructions(co)]
+        out = io.StringIO()
+        api.dis(co, file=out)
+        res["ret"] = ["stdheld", _api_fingerprint(api), ins]
+        res["text"] = out.getvalue()
     elif kind == "mdumps":
         import xdis.marsh
 
@@ -930,6 +995,8 @@ class RefMemo:
         mini = []
         if op[0] in SLOT_OPS:
             mini.append(["install", op[1], op[2], op[3]])
+        if op[0] == "stdheld":
+            mini.append(["stdhold", op[1], op[2], op[3], op[4]])
         mini.append(op)
         r, recs = run_ops(mini, images, detail=detail, tables_at_end=False)
         ops_recs = [x for x in recs if "j" in x]
@@ -937,7 +1004,7 @@ class RefMemo:
         if r.status != "ok" or not ops_recs:
             out = {"d": "REF-FAILED:%s" % r.status, "c": {}, "x": "ref-" + r.status}
         else:
-            out = ops_recs[0]
+            out = ops_recs[-1]  # the op itself is the last one of the mini-history
         if not detail:
             self.memo[k] = out
         return out
@@ -1116,6 +1183,7 @@ def merge(aggs):
 def _prune(ops):
     """drop ops that refer to a slot with no (or different) content; keep history well-formed"""
     state = {}
+    held = {}
     out = []
     for op in ops:
         if op[0] == "install":
@@ -1123,6 +1191,10 @@ def _prune(ops):
             out.append(op)
         elif op[0] in SLOT_OPS:
             if state.get(op[1]) == (op[2], op[3]):
+                if op[0] == "stdhold":
+                    held[op[4]] = (op[2], op[3])
+                if op[0] == "stdheld" and held.get(op[4]) != (op[2], op[3]):
+                    continue
                 out.append(op)
         else:
             out.append(op)
@@ -1237,7 +1309,7 @@ def fresh_interpreter_check(sample):
     for h in sample:
         memo = RefMemo()
         for op in h.ops:
-            if op[0] not in COMPARED:
+            if op[0] not in COMPARED or op[0] == "stdheld":
                 continue
             ref = memo.get(op, h.images)
             job = {"op": op, "image": core.b64(h.images[op[2]]) if op[0] in SLOT_OPS else None,
